@@ -15,7 +15,7 @@ import (
 func symLeaves(kind, n int, validUTF bool) (string, int) {
 	bs := vBytes(n)
 	if validUTF {
-		vAssume(validUTF8(bs))
+		vAssumeValidUTF8(bs)
 	}
 	i := 42
 	switch kind {
@@ -70,7 +70,11 @@ func H_c04(p []int) {
 	if addrLeak(kind, d) {
 		return // would print a machine address: outside the claim
 	}
-	s, i := symLeaves(kind, n, true)
+	lk := kind
+	if strings.Contains(d, "*") {
+		lk = -1 // the operand of a star width/precision stays concrete
+	}
+	s, i := symLeaves(lk, n, true)
 	if strings.ContainsAny(d, "qU") {
 		// strconv.IsPrint's table search explodes on a free 32-bit rune:
 		// quoted runes are restricted to Latin-1 (stated bound)
